@@ -58,6 +58,41 @@ def reader_writer(prog: Program, rep, RID: str):
             rep.violation(RID, key2, "is_valid_solution no longer compares the recomputed objective with the solver's objective", iv.loc())
 
 
+def error_variables_rule(prog, rep, RID):
+    """The error of an edge is |flow - load|: (a) it is an integer only if the weights *and* the flow values are, so the error variables
+    are integer (and the published errors rounded) only under both conditions; (b) in the cyclic model the load is a sum of k products each
+    bounded by w_max, so the error needs the bound k * w_max."""
+    import ast
+    from sa.pm import calls_in, kwarg, norm, AnalysisError
+    for cname in ("kLeastAbsErrors", "kLeastAbsErrorsCycles"):
+        cls = prog.cls(cname)
+        n = 0
+        for m in cls.methods.values():
+            for c in calls_in(m.node):
+                if isinstance(c.func, ast.Attribute) and c.func.attr == "add_variables" and isinstance(kwarg(c, "name_prefix"), ast.Constant) and kwarg(c, "name_prefix").value == "ee":
+                    n += 1
+                    vt = norm(kwarg(c, "var_type"))
+                    key = f"{cname}.{m.name}:error-variables"
+                    if "'integer'" in vt and "integral" not in vt and "is_integer" not in vt:
+                        rep.violation(RID, key + ":type", f"the error variables are integer whenever weight_type is int (`{vt[:80]}`), although |flow - load| is not an integer for a "
+                                      "non-integral flow value: the model minimises rounded-up errors and reports an objective that differs from the one recomputed from its own "
+                                      "paths (flows 2.2, 2.2, 2.2, 3.0: weight 3 / objective 3 reported, recomputed 2.4; best integer weight 2 with 1.6)", m.loc(c))
+                    else:
+                        rep.ok(RID, key + ":type", f"integer only if the flow values are integral too (`{vt[:80]}`)", m.loc(c))
+                    if cname.endswith("Cycles") and "given_weights" not in m.name:
+                        ub = norm(kwarg(c, "ub"))
+                        if ub == "self.w_max":
+                            rep.violation(RID, key + ":ub", "the error variables of the cyclic model are bounded by w_max, the bound of one product x*w, although the load of an edge is "
+                                          "the sum of k such products: the error of one edge can exceed w_max and the optimum is cut off (hub edge with flow 0 and five petals "
+                                          "of flow 2, k=2: 8 reported, 6 reachable)", m.loc(c))
+                        elif "self.k" in ub and "self.w_max" in ub:
+                            rep.ok(RID, key + ":ub", f"ub = `{ub}` covers the sum of k products", m.loc(c))
+                        else:
+                            raise AnalysisError(f"{cname}.{m.name}: cannot classify the bound `{ub}` of the error variables")
+        if n == 0:
+            raise AnalysisError(f"{cname}: error variables (name_prefix 'ee') not found")
+
+
 def check(prog: Program, rep):
     rep.rule("C07.R1", "least-absolute-errors families conform to the frozen formulation table", floor=20)
     conformance(prog, rep, "C07.R1", "C07")
@@ -96,3 +131,6 @@ def check(prog: Program, rep):
     c14.splice_rule(prog, px, "C14.R1")
     from rules.providers import given_weights_integral
     given_weights_integral(prog, rep, "C07.R8", ["kLeastAbsErrors"])
+    from rules.values import coefficients_converted
+    coefficients_converted(prog, rep, "C07.R8", ["kLeastAbsErrors", "kLeastAbsErrorsCycles"])
+    error_variables_rule(prog, rep, "C07.R8")
